@@ -207,9 +207,24 @@ func newNode(sid string, sc *script) (*hnode, error) {
 	if sc.SessionID != "" {
 		sess = unhx(sc.SessionID)
 	}
-	h, err := protocol.NewMultiHandler(scriptStart(sc), sess)
-	if err != nil {
-		return nil, err
+	type res struct {
+		h   *protocol.MultiHandler
+		err error
+	}
+	done := make(chan res, 1)
+	go func() {
+		h, err := protocol.NewMultiHandler(scriptStart(sc), sess)
+		done <- res{h, err}
+	}()
+	var h *protocol.MultiHandler
+	select {
+	case r := <-done:
+		if r.err != nil {
+			return nil, r.err
+		}
+		h = r.h
+	case <-time.After(3 * time.Second):
+		panic("HANG: NewMultiHandler did not return within 3 s (nobody can drain the out channel before the constructor returns)")
 	}
 	n := &hnode{sid: sid, sc: sc, h: h}
 	n.ch = h.Listen()
@@ -269,6 +284,38 @@ func (n *hnode) call(f func()) {
 	}
 }
 
+// callSync runs f the way a single-goroutine event loop does: nothing drains the out channel while f
+// runs; if f does not return within 2 s it is reported as a hang (and then unblocked by draining).
+func (n *hnode) callSync(f func()) {
+	done := make(chan interface{}, 1)
+	go func() {
+		defer func() { done <- recover() }()
+		f()
+	}()
+	select {
+	case r := <-done:
+		if r != nil {
+			panic(r)
+		}
+		n.drainNow()
+	case <-time.After(2 * time.Second):
+		// unblock it, then report
+		for {
+			select {
+			case m, ok := <-n.ch:
+				n.recv(m, ok)
+				if !ok {
+					<-done
+					panic("HANG: the call blocked on the full out channel (drained only between calls, as a select-loop consumer does)")
+				}
+			case <-done:
+				n.drainNow()
+				panic("HANG: the call blocked on the full out channel (drained only between calls, as a select-loop consumer does)")
+			}
+		}
+	}
+}
+
 func (n *hnode) take() ([]*protocol.Message, bool) {
 	out := n.got
 	n.got = nil
@@ -322,12 +369,8 @@ func (n *hnode) observe() J {
 	}
 	n.last = emitted
 	res := J{"out": msgsJ(emitted), "closed": closed}
-	// the notice is sent without blocking: it is only certain to fit when this call produced < cap messages
-	if len(emitted) < 2*len(n.sc.IDs) {
-		res["notice"] = notices
-	} else {
-		res["notice"] = "any"
-	}
+	// the notice is sent without blocking; the channel holds a whole session's messages, so it always fits
+	res["notice"] = notices
 	v, err := n.h.Result()
 	switch {
 	case err == nil:
@@ -367,6 +410,9 @@ func genScript(c *Ctx) (*script, int) {
 	n := 2 + c.Intn(3)
 	if c.Intn(6) == 0 {
 		n = 5
+	}
+	if c.Intn(25) == 0 {
+		n = 1 // a single participant (threshold 0): every round completes at once
 	}
 	pool := []string{"a", "b", "c", "alice", "bob", "z9", "\xc3\xa9", "ab", "abc"}
 	c.Rng.Shuffle(len(pool), func(i, j int) { pool[i], pool[j] = pool[j], pool[i] })
@@ -595,6 +641,14 @@ func runSession(c *Ctx, sidBase string, mode string) {
 			}
 		}
 		k := c.Intn(len(pending))
+		if mode == "sync" {
+			// latest rounds first: the last delivery then runs through several rounds in one call
+			for j := range pending {
+				if pending[j].m.RoundNumber > pending[k].m.RoundNumber {
+					k = j
+				}
+			}
+		}
 		d := pending[k]
 		switch r := c.Intn(20); {
 		case r == 0: // duplicate: deliver but keep it pending
@@ -611,7 +665,11 @@ func runSession(c *Ctx, sidBase string, mode string) {
 		var can bool
 		ob := Guard(func() interface{} {
 			can = nd.h.CanAccept(d.m)
-			nd.call(func() { nd.h.Accept(d.m) })
+			if mode == "sync" {
+				nd.callSync(func() { nd.h.Accept(d.m) })
+			} else {
+				nd.call(func() { nd.h.Accept(d.m) })
+			}
 			o := nd.observe()
 			o["can"] = can
 			return o
@@ -642,7 +700,7 @@ func runSession(c *Ctx, sidBase string, mode string) {
 		c.Emit("views", J{"parties": parties, "rounds": sc0.Rounds, "cheater": cheater, "final": sc0.Final}, J{"ok": true})
 		c.Count("handler/views/" + mode)
 	}
-	if mode == "honest" {
+	if mode == "honest" || mode == "sync" {
 		// C07, judged against the in-order run of the model: whatever the schedule (any order, duplicates,
 		// replays of stale messages, early arrivals), every party ends with the in-order result
 		scs := make([]script, n)
@@ -855,7 +913,7 @@ func init() {
 		}
 	})
 	register("handler", func(c *Ctx) {
-		modes := []string{"honest", "honest", "cheat", "cheat", "equivocate", "noise", "stop"}
+		modes := []string{"honest", "honest", "cheat", "cheat", "equivocate", "noise", "stop", "sync"}
 		for i := 0; i < c.N; i++ {
 			runSession(c, fmt.Sprintf("s%d", i), modes[i%len(modes)])
 		}
